@@ -89,17 +89,30 @@ def exec_job(job):
         r = DrawLogRNG(job["seed"])
     f = getattr(bct, fn)
     rep = None
+    # how the caller types the integer parameters (job['ntype'], drawn): Python int or a numpy
+    # integer (n = len(...) of an array, K = a count computed with numpy); same values
+    I = {"int": int, "np64": np.int64, "np32": np.int32}[job.get("ntype", "int")]
+
+    def degvec(v):
+        """a degree sequence as the caller holds it: int64 / int32 / float64 (column sums of a
+        float matrix), contiguous or every second element of a larger vector; same values"""
+        a = np.array(v, dtype=job.get("dtype", "int64"))
+        if job.get("layout") == "stride":
+            big = np.zeros(2 * len(a), dtype=a.dtype)
+            big[::2] = a
+            return big[::2]
+        return a
     try:
         if fn in ("makerandCIJ_dir", "makerandCIJ_und", "makeringlatticeCIJ"):
-            A = f(job["n"], job["k"], seed=r)
+            A = f(I(job["n"]), I(job["k"]), seed=r)
         elif fn == "maketoeplitzCIJ":
-            A = f(job["n"], job["k"], job["s"], seed=r)
+            A = f(I(job["n"]), I(job["k"]), job["s"], seed=r)
         elif fn == "makeevenCIJ":
-            A = f(job["n"], job["k"], job["sz_cl"], seed=r)
+            A = f(I(job["n"]), I(job["k"]), I(job["sz_cl"]), seed=r)
         elif fn == "makefractalCIJ":
-            A, rep = f(job["mx_lvl"], job["E"], job["sz_cl"], seed=r)
+            A, rep = f(I(job["mx_lvl"]), job["E"], I(job["sz_cl"]), seed=r)
         elif fn == "makerandCIJdegreesfixed":
-            A = f(np.array(job["inv"], dtype=int), np.array(job["outv"], dtype=int), seed=r)
+            A = f(degvec(job["inv"]), degvec(job["outv"]), seed=r)
         else:
             raise core.MachineryError("unknown generator " + fn)
     except core.MachineryError:
@@ -193,7 +206,13 @@ def seeded_jobs(ctx):
 
     def add(**kw):
         kw.setdefault("seed", rng.randrange(2 ** 31))
-        kw["src"] = "seeded"
+        kw.setdefault("src", "seeded")
+        # integer parameters typed as Python ints (half) or numpy integers; degree sequences as
+        # int64 / int32 / float64 vectors, contiguous or strided (makerandCIJdegreesfixed only)
+        kw["ntype"] = rng.choice(["int", "int", "np64", "np32"])
+        if kw["fn"] == "makerandCIJdegreesfixed":
+            kw["dtype"] = rng.choice(["int64", "int64", "int32", "float64"])
+            kw["layout"] = rng.choice(["C", "C", "stride"])
         jobs.append(kw)
 
     # uniform random graphs: every feasible K for small n, random K beyond
@@ -219,7 +238,9 @@ def seeded_jobs(ctx):
     for _ in range(150 if q else 2500):
         n = rng.randint(3, 12)
         m = n * (n - 1)
-        add(fn="maketoeplitzCIJ", n=n, k=rng.randint(0, max(1, int(0.45 * m))), s=rng.choice([0.7, 1.0, 1.5, 2.5, 4.0]))
+        add(fn="maketoeplitzCIJ", n=n, k=rng.choice([0, 1, rng.randint(0, max(1, int(0.45 * m))),
+                                                     rng.randint(0, max(1, int(0.45 * m)))]),
+            s=rng.choice([0.7, 1.0, 1, 1.5, 2, 2.5, 4.0]))
     # even: n a power of two, cluster size 2**sz_cl <= n, K from the cluster count up to full
     for n in ([4, 8, 16] if q else [4, 8, 16, 32]):
         lv = n.bit_length() - 1
@@ -244,6 +265,40 @@ def seeded_jobs(ctx):
         p = rng.choice([0.1, 0.25, 0.5, 0.75, 0.95])
         G = np.array([[1 if (i != j and rng.random() < p) else 0 for j in range(n)] for i in range(n)])
         add(fn="makerandCIJdegreesfixed", n=n, k=int(G.sum()),
+            inv=[int(x) for x in G.sum(axis=0)], outv=[int(x) for x in G.sum(axis=1)])
+    # degree sequences of STRUCTURED digraphs (graphical by construction): regular (every degree
+    # equal: directed cycles, circulants), complete (all n-1: no freedom at all), stars (one hub),
+    # empty, disjoint cliques of equal size, isolated nodes among connected ones, in != out
+    for t in range(120 if q else 2000):
+        n = rng.randint(3, 10)
+        kind = rng.choice(["circulant", "complete", "star-out", "star-in", "empty", "cliques", "dag", "isolated+"])
+        G = np.zeros((n, n), dtype=int)
+        if kind == "circulant":
+            for off in rng.sample(range(1, n), rng.randint(1, n - 1)):
+                for i in range(n):
+                    G[i, (i + off) % n] = 1
+        elif kind == "complete":
+            G = 1 - np.eye(n, dtype=int)
+        elif kind in ("star-out", "star-in"):
+            G[0, 1:] = 1
+            if rng.random() < 0.5:
+                G[1:, 0] = 1
+            if kind == "star-in":
+                G = G.T.copy()
+        elif kind == "cliques":
+            m = rng.choice([2, 3])
+            for c in range(n // m):
+                G[c * m:(c + 1) * m, c * m:(c + 1) * m] = 1
+            np.fill_diagonal(G, 0)
+        elif kind == "dag":
+            G = np.triu(np.ones((n, n), dtype=int), 1)
+        elif kind == "isolated+":
+            m = rng.randint(2, n - 1)
+            G[:m, :m] = np.array([[1 if (i != j and rng.random() < 0.6) else 0 for j in range(m)] for i in range(m)])
+        perm = list(range(n))
+        rng.shuffle(perm)
+        G = G[np.ix_(perm, perm)]
+        add(fn="makerandCIJdegreesfixed", n=n, k=int(G.sum()), src="seeded-struct-" + kind,
             inv=[int(x) for x in G.sum(axis=0)], outv=[int(x) for x in G.sum(axis=1)])
     return jobs
 
@@ -281,7 +336,8 @@ MC_THOROUGH = MC_QUICK + [("MC_Rand.tla", "MC_Rand_und6.cfg"), ("MC_Rand.tla", "
 
 
 def what(job, rec, clause):
-    arg = {k: job[k] for k in ("n", "k", "inv", "outv", "mx_lvl", "E", "sz_cl", "s") if k in job}
+    arg = {k: job[k] for k in ("n", "k", "inv", "outv", "mx_lvl", "E", "sz_cl", "s", "ntype", "dtype", "layout")
+           if k in job}
     return "args=%s raised=%r" % (arg, rec.get("raised"))
 
 
@@ -321,7 +377,10 @@ def run(ctx):
                 "permutation), RingLatticeImpl (N=3) and DegreesFixedImpl (N=3, k<=3 quick / k<=4 thorough) plus "
                 "TLC -simulate behaviours for N up to 6/7 (ring), 5 (degrees), replayed through a scripted RandomState; "
                 "code->spec: seeded runs of all seven generators (every feasible K for small n, random beyond; "
-                "N in {4,8,16} for the hierarchical ones; degree pairs of random digraphs n in 5..10); "
+                "N in {4,8,16} for the hierarchical ones; degree pairs of random digraphs n in 5..10 and of "
+                "structured ones: circulants, complete, stars, empty, disjoint cliques, DAGs, isolated nodes; "
+                "integer parameters typed as Python or numpy integers, degree vectors as int64/int32/float64, "
+                "contiguous or strided - all drawn from the seeded RNG); "
                 "non-trivial = distinct (generator, arguments, draws) that returned and whose result depended on a draw "
                 "(0<K<max, excess removed from the outer band, at least one repair switch, random fill present)")
     if nb:
